@@ -66,7 +66,10 @@ class PollerModel:
         self.body = cands[0]
         chk.saw(self.body)
         # an arbitrary iteration of the loop, not the first one: loop-carried locals are unknown at the loop header
-        self.engine = common.mk_engine(fb, havoc_loops=True)
+        # (a loop written against private traits -- clock, link to the writer, PHC source -- is explored with the only
+        # implementation each trait has; the poller's own query / grace methods stay opaque calls, as in the trait form)
+        self.engine = common.mk_engine(fb, havoc_loops=True, unique_impls=True,
+                                       no_inline=lambda b: bool(b.impl_trait) and b.name in (QUERY_METHODS | GRACE_METHODS))
         self.paths = [p for p in self.engine.run(self.body) if p.kind != 'unreachable']
         chk.analysed['paths'] += len(self.paths)
         for p in self.engine.inlined:
